@@ -283,7 +283,8 @@ def resolve_ptr_eq(at):
     return out
 
 
-ORACLE_ATOMS = ('eq(se1.point,se2.point)', 'eq(other1.point,other2.point)', 'eq(se1.is_subject,se2.is_subject)')
+ORACLE_ATOMS = ('eq(se1.point,se2.point)', 'eq(other1.point,other2.point)', 'eq(se1.is_subject,se2.is_subject)',
+                'lt(se1,se2)', 'lt(other1,other2)', 'eq(se1.in_out,se2.in_out)')
 
 
 def check_code(ctx, rep, rule='T-code'):
@@ -312,7 +313,10 @@ def check_code(ctx, rep, rule='T-code'):
         if at.get('inter_kind') == 1:
             free = [a for a in free if a in ('eq(se1.point,se2.point)', 'eq(other1.point,other2.point)')]
         elif at.get('inter_kind') == 2:
-            free = [a for a in free if a in ('eq(se1.point,se2.point)', 'eq(other1.point,other2.point)', 'eq(se1.is_subject,se2.is_subject)')]
+            # the overlap arm also depends on which left / right end comes first and, for coinciding left ends, on whether the
+            # two edges have the same in/out flag: a path that did not test one of these where the outcome depends on it merges
+            # two cases (the oracle ignores the atoms where they do not matter)
+            pass
         else:
             free = []
         import itertools
